@@ -44,6 +44,52 @@ func NDPOptionsRaw(t *rapid.T, allowBad bool) []byte {
 			for j := 11; j < len(body); j++ {
 				body[j] = 0
 			}
+			// ... or a list whose labels are laid out against the end of the option: filling it exactly with and without
+			// the final terminator, a terminator on the very last byte, a last label that claims more than is left
+			if shape := rapid.IntRange(0, 5).Draw(t, "dnsslShape"); shape > 0 {
+				names := body[6:]
+				for j := range names {
+					names[j] = 'a' + byte(j%26)
+				}
+				pos := 0
+				for pos < len(names) {
+					rem := len(names) - pos
+					l := rapid.IntRange(1, 9).Draw(t, "dnsslLabel")
+					last := l+1 >= rem
+					switch {
+					case last && shape == 1: // the label runs to the final byte, no terminator
+						l = rem - 1
+					case last && shape == 2: // label, then the terminator on the final byte
+						l = rem - 2
+					case last && shape == 3: // claims one byte more than is left
+						l = rem
+					case last && shape == 4: // name ends early, padding follows
+						names[pos] = 0
+						for j := pos + 1; j < len(names); j++ {
+							names[j] = 0
+						}
+						pos = len(names)
+						continue
+					case last:
+						l = rem - 1
+					}
+					if l < 0 {
+						l = 0
+					}
+					names[pos] = byte(l)
+					pos += 1 + l
+					if last {
+						if shape == 2 && pos < len(names) {
+							names[pos] = 0
+						}
+						break
+					}
+					if rapid.IntRange(0, 2).Draw(t, "dnsslEndName") == 0 && pos < len(names) {
+						names[pos] = 0
+						pos++
+					}
+				}
+			}
 		}
 		opt := append([]byte{typ, byte(units)}, body...)
 		if allowBad && units == 0 {
